@@ -107,10 +107,27 @@ def build(fields, style):
         if not any(f["form"] in ("t3", "rf") and (not f["ct"] or not f["loc"]) for f in fields):
             return None
         return tuple(_native(f, empty_ct=True) for f in fields)
+    if style == "retyped":                   # RequestField objects that carried OTHER part headers before: built with stale
+        # headers and put through make_multipart twice; the part must carry exactly what the LAST call specified
+        if not any(f["form"] == "rf" for f in fields):
+            return None
+        out = []
+        for f in fields:
+            if f["form"] != "rf":
+                x = _native(f)
+                out.append(RequestField.from_tuples(*x))
+                continue
+            name, data = sym_text(f["name"]), _data(f)
+            fn = sym_text(f["fn"]) if f["hasfn"] else None
+            rf = RequestField(name, data, filename=fn, headers={"Content-Type": "image/jpeg", "Content-Location": "/loc"})
+            rf.make_multipart(content_type="application/octet-stream")
+            rf.make_multipart(content_type=f["ct"] or None, content_location=f["loc"] or None)
+            out.append(rf)
+        return out
     raise tlc.MachineryError("unknown style " + style)
 
 
-STYLES = ["list", "objs", "dict", "flip", "emptyct"]
+STYLES = ["list", "objs", "dict", "flip", "emptyct", "retyped"]
 
 
 _PRELUDE = [0]
